@@ -780,4 +780,28 @@ theorem send_exit_is_done {s s' : St} {act : Act} (a : Nat) (ha : inH (s.senders
   revert this ha hout
   cases (s.senders a).pc <;> cases (s'.senders a).pc <;> simp [inH, nextOK]
 
+/-- the step by which a Send leaves the region releases sendMu -/
+theorem exit_releases_sendMu {s s' : St} {act : Act} (a : Nat) (ha : inH (s.senders a).pc = true)
+    (hs : sys.step s act = some s') (hout : inH (s'.senders a).pc = false) : s'.sendMu = false := by
+  cases act
+  all_goals (simp only [sys, step] at hs <;> (repeat' (split at hs)) <;> cases hs)
+  all_goals (first | rfl | (exfalso; (try simp only [setSender, setSub, upd_apply] at hout); (repeat' (split at hout)) <;> simp_all [inH]))
+
+/-- when the Send has returned, no subscriber is left between a receive and the end of its Wait, and nobody owes anything -/
+theorem after_return_all_acknowledged {s : St} (h1 : PInv1 s) (h2 : PInv2 s) (hmu : s.sendMu = false) (t : Nat) :
+    (s.subs t).pc ≠ .got ∧ (s.subs t).pc ≠ .absorbing ∧ (s.subs t).owes = false := by
+  have noM := nobody_inM_of_free h1 hmu
+  have noG : ∀ b, inG (s.senders b).pc = false := by
+    intro b; cases e : inG (s.senders b).pc with
+    | false => rfl
+    | true => have := noM b; rw [inM_of_inG e] at this; cases this
+  have noA : ∀ b, inA (s.senders b).pc = false := by
+    intro b; cases e : inA (s.senders b).pc with
+    | false => rfl
+    | true => have := noM b; rw [inM_of_inA e] at this; cases this
+  have hg := SUM_zero_pt gotI (h2.gotIdle noG).1 rfl h1 t
+  have hq := (h2.quiet noA).2 t
+  refine ⟨?_, hq.2.2.2, hq.1⟩
+  intro e; simp [gotI, e] at hg
+
 end BB.PubSub
